@@ -85,7 +85,12 @@ def gen(seed, idx, tier):
                 entries.append(list(entries[0]))
             sid = sess.get((p, ch), 0) + 1
             sess[(p, ch)] = sid
-            b.sd(p, ch, entries, sess=[True, sid])
+            if r.random() < 0.1:
+                sid2 = sid + 1
+                sess[(p, ch)] = sid2
+                b.sd(p, ch, entries, sess=[True, sid], e2=[rand_entry(r, p) for _ in range(r.randint(1, 3))])
+            else:
+                b.sd(p, ch, entries, sess=[True, sid])
         elif k < 0.73:
             # a FindService answer is pending for this peer when the instance stops (its collector is flushed); what the
             # peer subscribes to afterwards must still be answered
@@ -175,7 +180,7 @@ def check(plan, res):
             if src not in o.expected_acks:
                 kind = "wrong-destination"
             viol.append(("ACK-SEQUENCE", {"msg": f"to {src[0]}: {m}", "context": kind}))
-    mc_ops = [i for i, op in enumerate(plan["ops"]) if op["k"] == "sd" and op["ch"] == "m" and any(e[0] == "sub" for e in op["e"])]
+    mc_ops = [i for i, op in enumerate(plan["ops"]) if op["k"] == "sd" and op["ch"] == "m" and any(e[0] == "sub" for e in op["e"] + op.get("e2", []))]
     if any(op["k"] == "sd" and len(op["e"]) > 1 for op in plan["ops"]):
         probes["multi_entry_messages"] = 1
     if mc_ops and not plan.get("_twin"):
@@ -186,6 +191,8 @@ def check(plan, res):
         for i, op in enumerate(plan["ops"]):
             if i in mc_ops:
                 op = dict(op, e=[harmless if e[0] == "sub" else e for e in op["e"]])
+                if "e2" in op:
+                    op["e2"] = [harmless if e[0] == "sub" else e for e in op["e2"]]
             ops2.append(op)
         twin = dict(plan, ops=ops2, _twin=True)
         r2 = single.execute(twin)
